@@ -220,6 +220,8 @@ def gen_run(r, i, tier):
             cfg.update(target_efficiency=0.95, dims=3, like_width=0.05)
     elif mode == "max_n_steps" and cfg["sampler"] == "minipcn_smc":
         cfg.update(max_n_steps=int(r.integers(1, 8)))
+        if r.random() < 0.4:
+            cfg.update(min_step=float(r.choice([1e-3, 0.01, 0.05, 0.2])))       # both options given
     elif mode == "ramp":
         cfg.update(target_efficiency=(0.2, 0.8), target_efficiency_rate=float(r.choice([1.0, 2.0])))
     elif mode == "peaked":
@@ -252,6 +254,11 @@ def corpus_runs():
                                {"target_efficiency": (0.2, 0.8), "target_efficiency_rate": 2.0})):
         out.append({"seed": 200 + j, "n_samples": 20, "dims": 2, "like_width": 0.6, "kernel_steps": 2, "sampler": "minipcn_smc",
                     "like_cut": 0.4, "mode": "hard_cut", **extra})
+    # BOTH an explicit minimum step and a step cap, with min_step * max_n_steps < 1 and a population that is still ESS-limited when the
+    # cap is reached: the run stops at the cap (below temperature 1), every step still at least the minimum step
+    for j, (ms, cap) in enumerate(((0.01, 2), (0.05, 3), (1e-3, 1), (0.1, 4), (0.02, 5))):
+        out.append({"seed": 300 + j, "n_samples": 12, "dims": 3, "like_width": 0.05, "kernel_steps": 1, "sampler": "minipcn_smc",
+                    "min_step": ms, "max_n_steps": cap, "target_efficiency": 0.95, "mode": "floor_and_cap"})
     return out
 
 
